@@ -5,7 +5,8 @@
 (* (each one loops over `write`) and a final `flush`, every result being    *)
 (* propagated with `?`.  The ENVIRONMENT is the writer: per `write` call it *)
 (* accepts some bytes, accepts nothing (-> WriteZero), reports a transient  *)
-(* Interrupted (retried), or fails for good; `flush` may fail.              *)
+(* Interrupted (retried), or fails for good; `flush` may fail, or report a  *)
+(* transient Interrupted (retried as well).                                 *)
 (*   total      bytes the encoder has to write (abstract)                   *)
 (*   chunkLeft  bytes left in the current write_all payload (the encoder's  *)
 (*              internal chunking is arbitrary: chosen nondeterministically)*)
@@ -49,11 +50,15 @@ FlushOk == pc = "flush" /\ pc' = "done" /\ result' = "ok" /\ script' = Append(sc
            /\ UNCHANGED <<written, chunkLeft, intr, calls, callsAfterFail>>
 FlushFail == pc = "flush" /\ pc' = "err" /\ result' = "Other" /\ script' = Append(script, -100)
              /\ UNCHANGED <<written, chunkLeft, intr, calls, callsAfterFail>>
+\* a transient Interrupted from `flush` is retried like one from `write` (the statement makes no difference)
+FlushInterrupt == /\ pc = "flush" /\ intr > 0 /\ intr' = intr - 1
+                  /\ script' = Append(script, -101)
+                  /\ UNCHANGED <<written, chunkLeft, pc, result, calls, callsAfterFail>>
 
 Next == \/ \E m \in 1..Total : NextChunk(m)
         \/ ToFlush
         \/ \E k \in 1..MaxAccept : Accept(k)
-        \/ AcceptZero \/ Interrupt \/ Fail("Other") \/ Fail("PermissionDenied") \/ FlushOk \/ FlushFail
+        \/ AcceptZero \/ Interrupt \/ Fail("Other") \/ Fail("PermissionDenied") \/ FlushOk \/ FlushFail \/ FlushInterrupt
 Spec == Init /\ [][Next]_vars /\ WF_vars(Next)
 
 \* the encoder's internal chunking and the script are irrelevant for what can happen next
